@@ -10,14 +10,22 @@ pub enum Kind {
     B2b,
     /// `InOut`/`InOutBuf` built from two separate buffers (`*_inout`)
     InOut,
+    /// the `*_inout` entry point on ONE buffer (`buf.into()`): in place as far as the caller is concerned, but a
+    /// different public method from the `&mut` form; adapters ignore `inp` and operate on `out` like `InPlace`
+    Alias,
 }
-pub const KINDS: [Kind; 3] = [Kind::InPlace, Kind::B2b, Kind::InOut];
+pub const KINDS: [Kind; 4] = [Kind::InPlace, Kind::B2b, Kind::InOut, Kind::Alias];
 impl Kind {
+    /// does the call read its input from the output buffer?
+    pub fn in_place(self) -> bool {
+        matches!(self, Kind::InPlace | Kind::Alias)
+    }
     pub fn s(self) -> &'static str {
         match self {
             Kind::InPlace => "inplace",
             Kind::B2b => "b2b",
             Kind::InOut => "inout",
+            Kind::Alias => "inout-one-buffer",
         }
     }
     pub fn parse(s: &str) -> Option<Kind> {
@@ -151,7 +159,8 @@ pub trait BlockMode {
     /// `encrypt_with_backend` / `decrypt_with_backend` with a CALLER-SUPPLIED closure, in place on `buf`.  `mode`:
     /// 1 = full groups through `*_par_blocks`, remainder block by block; 2 = remainder through `*_tail_blocks` only if
     /// non-empty; 3 / 4 = the same through the `*_inplace` backend methods; 5 = every block through `*_block`;
-    /// 6 = one block through `*_block_inplace` first, then as 2 on the rest
+    /// 6 = one block through `*_block_inplace` first, then as 2 on the rest; 7 = first half buffer to buffer and second
+    /// half through the `*_inplace` methods inside one backend session; 8 = the other way round
     fn many_closure(&mut self, mode: u8, buf: &mut [u8]);
     fn iv_state(&self) -> Vec<u8>;
     fn dup(&self) -> Box<dyn BlockMode>;
